@@ -100,6 +100,10 @@ class Law:
     functions: Sequence[str] = ()
     backend: str = "auto"  # auto | nf | z3
     timeout_s: float = 20.0
+    # also execute the clause at DEGENERATE points (each group of generic inputs set to zero in turn): generic execution is
+    # only as good as SymPy's automatic simplification of the generic expression, which cancels removable singularities
+    # (|u| * (x / |u|) -> x) that the real code hits on concrete zero operands.  Bounded supplement, real counterexamples only.
+    degenerate: bool = True
 
 
 def _shape_str(shape) -> str:
@@ -155,7 +159,12 @@ def discharge(law: Law, shape, pid: str, replay_ref: str) -> Ob:
     verdict = None
     detail = ""
     backend = "nf"
-    if law.backend in ("auto", "nf") and not case.assume:
+    nan_res = [r for r in residuals if r.has(sp.S.NaN) or r in (sp.zoo, sp.oo, -sp.oo)]
+    if nan_res:
+        # the real functions returned NaN / an infinity on GENERIC inputs: the residual is not 0 for any value of the inputs
+        verdict, backend = REFUTED, "exec-generic"
+        detail = f"residual is {nan_res[0]} (not a finite number) for every value of the generic inputs"
+    elif law.backend in ("auto", "nf") and not case.assume:
         try:
             vs = [nf_is_zero(r) for r in residuals]
         except Unsupported as u:
@@ -189,6 +198,10 @@ def discharge(law: Law, shape, pid: str, replay_ref: str) -> Ob:
             ob, model = smt_prove(name, hyps, z3.And([g == 0 for g in goals]) if goals else z3.BoolVal(True),
                                   timeout_s=law.timeout_s, signature=_shape_str(shape))
             ob.ms += ms_nf
+            if ob.verdict == PROVED and law.degenerate:
+                dg = _degenerate_ob(law, shape, gen, name, t0, replay_ref)
+                if dg is not None:
+                    return dg
             if ob.verdict != REFUTED:
                 return ob
             verdict, detail, backend = REFUTED, ob.detail, ob.backend
@@ -196,6 +209,10 @@ def discharge(law: Law, shape, pid: str, replay_ref: str) -> Ob:
         except Unsupported as u:
             return Ob(name, UNKNOWN, "z3", (time.time() - t0) * 1000, f"translation unsupported: {u}")
     ms = (time.time() - t0) * 1000
+    if verdict == PROVED and law.degenerate:
+        dg = _degenerate_ob(law, shape, gen, name, t0, replay_ref)
+        if dg is not None:
+            return dg
     if verdict == PROVED:
         return Ob(name, PROVED, backend, ms, "", _shape_str(shape))
     if verdict is None:
@@ -234,6 +251,55 @@ def eval_case_at(law: Law, shape, pt) -> tuple[Optional[bool], list]:
     return True, vals
 
 
+def _degenerate_ob(law, shape, gen, name, t0, replay_ref):
+    bad = degenerate_failure(law, shape, gen.names, gen.assum)
+    if bad is None:
+        return None
+    pt, vals = bad
+    ob = Ob(name, REFUTED, "exec-degenerate-point", (time.time() - t0) * 1000,
+            f"holds for generic inputs, but at the degenerate input {({k: str(v) for k, v in pt.items()})} the real functions give residuals {vals}", _shape_str(shape))
+    ob.replay = {"reproduced": True, "inputs": {k: str(v) for k, v in pt.items()}, "script": _replay_script(replay_ref, law.name, shape, pt)}
+    return ob
+
+
+def degenerate_failure(law: Law, shape, names, assum):
+    """evaluate the clause with each group of generic inputs (same name stem) set to zero, the others at fixed non-zero values"""
+    import re as _re
+    groups: dict[str, list[str]] = {}
+    for n in names:
+        groups.setdefault(_re.sub(r"\d+$", "", n), []).append(n)
+    rng = random.Random(seed() * 31 + 5)
+    base = {n: sp.Rational(rng.randint(1, 9), rng.randint(1, 4)) * (-1) ** rng.randint(0, 1) for n in names}
+    for n in names:
+        a = (assum or {}).get(n, {})
+        if a.get("positive") or a.get("nonnegative"):
+            base[n] = abs(base[n])
+        if a.get("negative"):
+            base[n] = -abs(base[n])
+        if a.get("integer"):
+            base[n] = sp.Integer(int(base[n]) or 1)
+    for stem, members in groups.items():
+        if any((assum or {}).get(n, {}).get(k) for n in members for k in ("positive", "negative", "nonzero")):
+            continue  # zero is outside this input's declared domain
+        pt = dict(base)
+        for n in members:
+            pt[n] = sp.Integer(0)
+        pt["__seed__"] = 1
+        try:
+            ok, vals = eval_case_at(law, shape, pt)
+        except Exception:
+            continue  # the real code refuses the degenerate input: not a value disagreement
+        if not ok:
+            continue
+        for v in vals:
+            try:
+                if v.is_number and not abs(complex(sp.N(v, 30))) <= 1e-12:
+                    return pt, [str(x) for x in vals]
+            except Exception:
+                pass
+    return None
+
+
 def find_failing_point(law: Law, shape, names, rng, tries=60, assum=None):
     assum = assum or {}
     for _ in range(tries):
@@ -258,7 +324,7 @@ def find_failing_point(law: Law, shape, names, rng, tries=60, assum=None):
         bad = False
         for v in vals:
             try:
-                if v.is_number and abs(complex(sp.N(v, 30))) > 1e-12:
+                if v.is_number and not abs(complex(sp.N(v, 30))) <= 1e-12:  # NaN counts as failing
                     bad = True
             except Exception:
                 pass
